@@ -487,19 +487,22 @@ func (bh *Header) AddReference(r *Reference) error {
 		} else if !equalRefs(r, &Reference{id: -1, name: er.name, lRef: er.lRef}) {
 			return errDupReference
 		}
-		if r.md5 == "" {
-			r.md5 = er.md5
+		// r refines the description of the reference the Header
+		// already holds. The held Reference stays in place so that
+		// its id, its owner, its other tags and every pointer to
+		// it remain valid.
+		if r.md5 != "" {
+			er.md5 = r.md5
 		}
-		if r.assemID == "" {
-			r.assemID = er.assemID
+		if r.assemID != "" {
+			er.assemID = r.assemID
 		}
-		if r.species == "" {
-			r.species = er.species
+		if r.species != "" {
+			er.species = r.species
 		}
-		if r.uri == nil {
-			r.uri = er.uri
+		if r.uri != nil {
+			er.uri = r.uri
 		}
-		bh.refs[dupID] = r
 		return nil
 	}
 	if r.owner != nil || r.id >= 0 {
